@@ -37,7 +37,14 @@ fn strategy(tier: Tier) -> BoxedStrategy<C14Case> {
         any::<u16>(),
         proptest::collection::vec(op_strategy(w, ValSizes::Mixed), 0..tier.pick(12usize, 40usize)),
     )
-        .prop_map(|(hist, crash_frac, second)| C14Case { hist, crash_frac, second })
+        .prop_map(|(mut hist, crash_frac, second)| {
+            // one case in twenty-five runs with interval sync (1 ms) and a pause after every
+            // operation: the timer-driven sync must not touch anything but the active descriptor
+            if crash_frac % 25 == 7 {
+                hist.cfg.sync_interval_ms = 1;
+            }
+            C14Case { hist, crash_frac, second }
+        })
         .boxed()
 }
 
@@ -320,6 +327,9 @@ fn exec(c: &C14Case, env: &Env) -> Outcome {
     if has_merge {
         out.label("has-merge");
     }
+    if c.hist.cfg.sync_interval_ms > 0 {
+        out.label("interval-sync");
+    }
     if rollovers > 0 {
         out.label("has-rollover");
     }
@@ -330,7 +340,7 @@ pub fn prop() -> Prop<C14Case> {
     Prop {
         id: "C14",
         level: "exploration",
-        rule: "Workloads (set/get/del/merge/reopen, 3-24 ops quick / up to 80 thorough) run under the LD_PRELOAD recorder; a second generated workload is then started from the directory left by a crash at a generated point of the first. Invariants are checked over EVERY recorded call: creation only with O_CREAT|O_EXCL|O_APPEND and no O_TRUNC; no open of an existing store file with write access; no truncate/rename/pwrite/link/fallocate; no writable mapping; writes only through descriptors obtained by creating the file; a shadow copy built from the recorded appends equals the real directory after the open and after every op (catches modification by any route); a created data file's id exceeds every id the directory has ever contained (across the crash), a hint file carries the id of a data file this process created; no name is ever re-created; and an independent decoder finds every entry starting at an offset <= max_file_size. Non-trivial: the log contains at least one rollover, one merge and one (crash-)reopen; distinct = distinct hash of the whole case.",
+        rule: "Workloads (set/get/del/merge/reopen, 3-24 ops quick / up to 80 thorough) run under the LD_PRELOAD recorder; a second generated workload is then started from the directory left by a crash at a generated point of the first. One case in twenty-five runs with interval sync (1 ms) and a 1.5 ms pause after every operation, so that the timer-driven sync runs between rollovers and merges. Invariants are checked over EVERY recorded call: creation only with O_CREAT|O_EXCL|O_APPEND and no O_TRUNC; no open of an existing store file with write access; no truncate/rename/pwrite/link/fallocate; no writable mapping; writes only through descriptors obtained by creating the file; a shadow copy built from the recorded appends equals the real directory after the open and after every op (catches modification by any route); a created data file's id exceeds every id the directory has ever contained (across the crash), a hint file carries the id of a data file this process created; no name is ever re-created; and an independent decoder finds every entry starting at an offset <= max_file_size. Non-trivial: the log contains at least one rollover, one merge and one (crash-)reopen; distinct = distinct hash of the whole case.",
         assumptions: &[
             "only calls that go through libc's open/write/pwrite/truncate/rename/unlink/link/fallocate/mmap wrappers are observed (raw syscalls would be missed; the shadow-copy comparison still catches their effects)",
         ],
